@@ -19,7 +19,7 @@ ASSUMPTIONS = ["keccak is read as the real Keccak-256; its injectivity witnesses
 # generator exclusions: each one exists only because of a recorded known finding (known_findings.json) that the
 # corpus replays deterministically; remove the exclusion when the defect is repaired
 FEATURES = {"calls": True, "create": True, "static": True,
-            "value_in_static": False,   # known finding corpus:static-call-with-value (value-bearing CALL inside a static frame)
+            "symbolic_target": True, "value_in_static": False,   # known finding corpus:static-call-with-value (value-bearing CALL inside a static frame)
             }                           # MSIZE is never generated: known finding corpus:msize-after-mload
 
 CFGS = [{}, {"loop": 3}, {"solver_timeout_branching": 0}, {"storage_layout": "generic"}]
